@@ -4,9 +4,9 @@ CONSTANTS
   Mode = "honest"
   MaxBlocks = 2
   Layouts = {"plain"}
-  MaxUnwind = 0
+  MaxUnwind = 1
   Defect = "none"
-  MaxReload = 1
+  MaxReload = 0
 CONSTRAINT Bounded
 VIEW View
 INVARIANT TypeOK
